@@ -113,6 +113,10 @@ class Attract(Mode):
         elif not self.active or self.stopping:
             # e.g. service mode was entered while the request was being processed
             self.debug_log("Attract mode was stopped meanwhile. Not starting a game")
+        elif self.machine.game:
+            # attract starts on game_ended but the game mode might not be stopped completely yet. it would
+            # ignore game_start in that case (while attract would stop).
+            self.debug_log("The previous game is still stopping. Ignoring game start.")
         else:  # else because we want to start on True *or* None
             self.debug_log("Let's start a game!!")
             self.machine.events.post('game_start',
